@@ -722,6 +722,17 @@ def regenerate_transform(source_fn):
 #######################
 
 
+def _tag_constant_leaves(retval_diffs):
+    # Return values which do not flow through the incremental interpreter
+    # (e.g. Python literals) are constants: tag them `NoChange`, and keep the
+    # tags of the other leaves.
+    return jtu.tree_map(
+        lambda v: v if isinstance(v, Diff) else Diff.no_change(v),
+        retval_diffs,
+        is_leaf=lambda v: isinstance(v, Diff),
+    )
+
+
 @Pytree.dataclass
 class StaticGenerativeFunction(Generic[R], GenerativeFunction[R]):
     """A `StaticGenerativeFunction` is a generative function which relies on program
@@ -843,8 +854,7 @@ class StaticGenerativeFunction(Generic[R], GenerativeFunction[R]):
                 bwd_requests,
             ),
         ) = update_transform(self.source)(key, trace, constraint, argdiffs)
-        if not Diff.static_check_tree_diff(retval_diffs):
-            retval_diffs = Diff.no_change(retval_diffs)
+        retval_diffs = _tag_constant_leaves(retval_diffs)
 
         def make_bwd_request(traces, subconstraints):
             addresses = traces.keys()
@@ -883,6 +893,7 @@ class StaticGenerativeFunction(Generic[R], GenerativeFunction[R]):
                 bwd_requests,
             ),
         ) = static_edit_request_transform(self.source)(key, trace, addressed, argdiffs)
+        retval_diffs = _tag_constant_leaves(retval_diffs)
 
         def make_bwd_request(
             traces: dict[StaticAddress, Trace[R]],
@@ -925,6 +936,7 @@ class StaticGenerativeFunction(Generic[R], GenerativeFunction[R]):
         ) = regenerate_transform(self.source)(
             key, trace, selection, edit_request, argdiffs
         )
+        retval_diffs = _tag_constant_leaves(retval_diffs)
 
         def make_bwd_request(
             traces: dict[StaticAddress, Trace[R]],
